@@ -80,11 +80,43 @@ STRATEGIES = {
 }
 
 
+def deflate_fixed_literals(data):
+    """a raw deflate stream made of ONE final block with fixed Huffman codes and literals only (written out by hand: zlib
+    itself falls back to a stored block whenever that is not longer)"""
+    acc, nbits, out = 0, 0, bytearray()
+
+    def put(value, n, msb_first):
+        nonlocal acc, nbits
+        for i in range(n):
+            bit = (value >> (n - 1 - i)) & 1 if msb_first else (value >> i) & 1
+            acc |= bit << nbits
+            nbits += 1
+            if nbits == 8:
+                out.append(acc); acc = 0; nbits = 0
+    put(1, 1, False)      # BFINAL
+    put(1, 2, False)      # BTYPE = 01
+    for b in data:
+        if b < 144:
+            put(0x30 + b, 8, True)
+        else:
+            put(0x190 + (b - 144), 9, True)
+    put(0, 7, True)       # end of block
+    if nbits:
+        out.append(acc)
+    return bytes(out)
+
+
 def pack_block(data, strategy, pad_to=128, junk=0):
     """one data block: 16-byte header + payload, padded; returns (bytes, strategy_used)"""
     used = strategy
     payload = None
-    if strategy != "raw":
+    if strategy == "fixed-literals":
+        payload = deflate_fixed_literals(data)
+        assert zlib.decompress(payload, -15) == data
+        if len(payload) >= 32000:
+            payload = None
+            used = "raw"
+    elif strategy != "raw":
         level, strat = STRATEGIES[strategy]
         c = zlib.compressobj(level, zlib.DEFLATED, -15, 8, strat)
         payload = c.compress(data) + c.flush()
@@ -114,11 +146,12 @@ def split(data, sizes):
     return out
 
 
-def standard_entry(chunks, strategies, gap=0, order=None):
+def standard_entry(chunks, strategies, gap=0, order=None, extra_header=0):
     """chunks: list of byte strings (the content split); order: storage order of the blocks (a permutation of their indices; the
     block table stays in content order and carries each block's offset); -> (entry bytes, used strategies)"""
     nb = len(chunks)
-    hsize = (24 + 8 * nb + 127) // 128 * 128
+    # the stated header size is what locates the block area: it may be longer than the block table needs
+    hsize = (24 + 8 * nb + 127) // 128 * 128 + 128 * extra_header
     packed = []
     used = []
     for c, s in zip(chunks, strategies):
@@ -136,13 +169,13 @@ def standard_entry(chunks, strategies, gap=0, order=None):
     return hdr.ljust(hsize, b"\0") + blocks, used
 
 
-def texture_entry(header, mips, strategies_fn, mip_order=None, mip_gap=0):
+def texture_entry(header, mips, strategies_fn, mip_order=None, mip_gap=0, extra_header=0):
     """header: bytes of the .tex header (kept verbatim); mips: list of lists of chunks. mip_order: storage order of the mips after
     the first (mip 0 directly follows the header, its offset is the header length); mip_gap: unused 128-byte units between mips.
     -> (entry, expected_output, used)"""
     nl = len(mips)
     nsub = sum(len(m) for m in mips)
-    hsize = (24 + 20 * nl + 2 * nsub + 127) // 128 * 128
+    hsize = (24 + 20 * nl + 2 * nsub + 127) // 128 * 128 + 128 * extra_header
     packed = []
     used = []
     expected = bytearray(header)
@@ -174,7 +207,7 @@ def texture_entry(header, mips, strategies_fn, mip_order=None, mip_gap=0):
     return hdr.ljust(hsize, b"\0") + bytes(data), bytes(expected), used
 
 
-def model_entry(version, stack, runtime, lods, vdecl_num, material_num, num_lods, streaming, edge, split_fn, strategies_fn, storage=None, sec_gap=0):
+def model_entry(version, stack, runtime, lods, vdecl_num, material_num, num_lods, streaming, edge, split_fn, strategies_fn, storage=None, sec_gap=0, extra_header=0):
     """stack, runtime: bytes; lods: list of 3 (vertex_bytes, index_bytes); split_fn(data)->chunks. storage: order in which the
     sections' block runs are laid out (names; the block-size table and the block indices stay in section order, every section carries
     its own offset); sec_gap: unused 128-byte units between the runs.
@@ -216,7 +249,7 @@ def model_entry(version, stack, runtime, lods, vdecl_num, material_num, num_lods
         return struct.pack("<11" + fmt, *vals)
 
     nblocks = bindex
-    hsize = (12 + 12 + 44 * 3 + 22 * 2 + 8 + 2 * nblocks + 127) // 128 * 128
+    hsize = (12 + 12 + 44 * 3 + 22 * 2 + 8 + 2 * nblocks + 127) // 128 * 128 + 128 * extra_header
     total = 0x44 + sum(len(s) for _, s in sections)
     hdr = struct.pack("<IiI", hsize, 3, total) + struct.pack("<III", nblocks, nblocks, version)
     hdr += mms("unc", "I") + mms("comp", "I") + mms("off", "I") + mms("index", "H") + mms("num", "H")
